@@ -21,6 +21,7 @@ import (
 	"sort"
 	"time"
 
+	"cosmossdk.io/depinject"
 	"cosmossdk.io/log"
 	sdkmath "cosmossdk.io/math"
 	storetypes "cosmossdk.io/store/types"
@@ -117,6 +118,14 @@ type Options struct {
 	InitialHeight int64
 	// NoFirstBlock: do not run the empty first block (replicas replay it).
 	NoFirstBlock bool
+	// ExtraConfig, when set, is merged into the depinject configuration of the
+	// application (e2e.AppConfig): wiring a host application adds on top of the
+	// repository's own configuration, e.g. a module's gov hooks or legacy
+	// proposal route.  Nil (the default) leaves the e2e application as it is.
+	ExtraConfig depinject.Config
+	// AfterBuild, when set, runs on every freshly constructed application (also
+	// after Restart) before the latest version is loaded.
+	AfterBuild func(app *simapp.SimApp)
 }
 
 // Tx is one transaction to deliver.
@@ -205,8 +214,12 @@ func newApp(c *Chain, db *dbm.MemDB, opts Options) *simapp.SimApp {
 	if ics == nil {
 		ics = tokenkeeper.ProvideMockICS20()
 	}
+	appCfg := e2e.AppConfig
+	if opts.ExtraConfig != nil {
+		appCfg = depinject.Configs(appCfg, opts.ExtraConfig)
+	}
 	dep := simapp.DepinjectOptions{
-		Config:    e2e.AppConfig,
+		Config:    appCfg,
 		Providers: []interface{}{evm, ics},
 		Consumers: []interface{}{
 			&c.K.Coinswap, &c.K.Farm, &c.K.HTLC, &c.K.MT, &c.K.NFT,
@@ -222,6 +235,9 @@ func newApp(c *Chain, db *dbm.MemDB, opts Options) *simapp.SimApp {
 	// NewSimApp, i.e. on every restart) bind themselves here
 	if b, ok := evm.(interface{ BindApp(*simapp.SimApp) }); ok {
 		b.BindApp(app)
+	}
+	if opts.AfterBuild != nil {
+		opts.AfterBuild(app)
 	}
 	if !opts.NoPostHandler {
 		app.SetPostHandler(c.postHandler)
